@@ -113,7 +113,7 @@ def mWaitForGate (F : Nat) : Msg := { cmd := "wait_for", iargs := [F] }
     `F` when every event of `futs` has been set (`allSet`). -/
 def startCallGated (s : EState) (plan : Gen) (futs : List Nat) (F : Nat) : EState :=
   if futs.isEmpty then startCall s plan
-  else { startCall s plan with planStack := [Gen.list [mWaitForGate F], plan], respStack := [.none, .none] }
+  else { startCall s plan with planStack := [Gen.fresh [mWaitForGate F], plan], respStack := [.none, .none] }
 
 def allSet (released futs : List Nat) : Bool := futs.all released.contains
 
